@@ -4,7 +4,7 @@ from trees import *
 
 RULE = ("two seeded streams: (1) random validated models (all value/sign combinations, mixed atom/compound children, integer leaves incl. "
         "negative bounds, explicit/generated ids), (2) a targeted stream of positively signed nodes over compound and atom children with every value / atom-bounds combination (boolean, non-negative integer, negative, degenerate), alone, nested, and under Any / Imply; negate() output compared structurally (ids, bounds, sign, value, "
-        "children order, generated flag) with the model; all (<=512 quick) in-bounds leaf assignments evaluated on the "
+        "children order, generated flag) with the model; all (<=512 quick, <=1024 thorough, else that many sampled incl. corners) in-bounds leaf assignments evaluated on the "
         "original and on the negation by the real evaluate; non-trivial = has a compound child or an integer leaf")
 ASSUMPTIONS = ["validated, reference-free models", "assignments within declared leaf bounds"]
 
@@ -25,7 +25,7 @@ def do_case(ctx, inp):
     ctx.case(inp, nontrivial=depth(t) > 1 or any(b != (0, 1) for b in leaves_of(t).values()), tags=tg)
     ctx.op({"op": "negate", "t": t}, {"t": tn})
     lv = leaves_of(t)
-    for sigma in assignments(ctx.rng, lv, 512 if ctx.quick else 4096):
+    for sigma in assignments(ctx.rng, lv, 512 if ctx.quick else 1024):
         v0 = o.evaluate(sigma).constant
         v1 = n.evaluate(sigma).constant
         if v0 is None or v1 is None or v1 != 1 - v0 or v0 != ref_eval(t, sigma):
@@ -71,7 +71,7 @@ def gen_mixed(rng, depth=1):
 
 
 def run(ctx):
-    n_models = (150 if ctx.quick else 3000) * (3 if ctx.search else 1)
+    n_models = (150 if ctx.quick else 1200) * (3 if ctx.search else 1)
     for _ in range(n_models):
         a, o, t = gen_valid(ctx.rng, ctx.quick, wide_p=0.02)
         do_case(ctx, {"ast": a})
